@@ -1,11 +1,12 @@
 /-
 C16. The textual side of templates (edxml/template.py): how a template string is cut into scopes
-(`_split_template`), strings and placeholders (the regular expression `\[\[[^]]*]]`) and how the
-inside of a placeholder is read (`_parse_placeholder`).
+(`_split_template`), strings and placeholders (the regular expressions `\[\[[^]]*]]` of the evaluator
+and `\[\[[^]{}]*]]` = TEMPLATE_PATTERN of the validator) and how the inside of a placeholder is read
+(`_parse_placeholder`).
 
-A placeholder starts at the leftmost `[[` that is followed, after characters other than `]`, by
-`]]`; everything else is literal text. The expression cannot match anywhere inside a `[[` whose
-first `]` is not doubled, so one left-to-right pass decides every position.
+A placeholder starts at the leftmost `[[` that is followed, after characters the expression allows,
+by `]]`; everything else is literal text. The validator searches the whole template, the evaluator
+each string between curly brackets.
 -/
 import EdxmlModel.Template.Template
 namespace Edxml.Tpl
@@ -40,30 +41,58 @@ def parsePh (body : List Char) : Seg :=
   | some (f, a) => .ph (some (String.ofList f)) (argsOf a)
   | none => .ph none (argsOf body)
 
-/-- what is between `[[` and the next `]]`, and what follows, provided no single `]` comes first -/
-def closeOf (cs : List Char) : Option (List Char × List Char) :=
-  match (cs.span (· != ']')).2 with
-  | ']' :: ']' :: tail => some ((cs.span (· != ']')).1, tail)
+/-- what may not occur inside a placeholder for the evaluator: `[^]]` -/
+def stopEval (c : Char) : Bool := c == ']'
+/-- ... and for the validator's TEMPLATE_PATTERN: `[^]{}]` -/
+def stopValidate (c : Char) : Bool := c == ']' || c == '{' || c == '}'
+def isBrace (c : Char) : Bool := c == '{' || c == '}'
+
+/-- what is between `[[` and the next `]]`, and what follows, provided no other stop character comes first -/
+def closeOfBy (stop : Char → Bool) (cs : List Char) : Option (List Char × List Char) :=
+  match cs.dropWhile (fun c => !stop c) with
+  | ']' :: ']' :: tail => some (cs.takeWhile (fun c => !stop c), tail)
   | _ => none
+
+/-- `re.findall(pattern, string)`: the insides of the matches, leftmost first, not overlapping -/
+def findAllF (stop : Char → Bool) : Nat → List Char → List (List Char)
+  | 0, _ => []
+  | _, [] => []
+  | n + 1, c :: cs =>
+    if c == '[' && cs.head? == some '[' then
+      match closeOfBy stop cs.tail with
+      | some (body, tail) => body :: findAllF stop n tail
+      | none => findAllF stop n cs
+    else findAllF stop n cs
+
+def findAll (stop : Char → Bool) (cs : List Char) : List (List Char) := findAllF stop cs.length cs
 
 def pushChar (c : Char) : List Seg → List Seg
   | .text s :: r => .text (String.singleton c ++ s) :: r
   | r => .text (String.singleton c) :: r
 
-/-- `re.findall(r'\[\[[^]]*]]', string)` together with the text in between -/
+/-- the evaluator's `re.findall(r'(\[\[([^]]*)]])', string)` together with the text in between -/
 def scanF : Nat → List Char → List Seg
   | 0, _ => []
   | _, [] => []
   | n + 1, c :: cs =>
     if c == '[' && cs.head? == some '[' then
-      match closeOf cs.tail with
+      match closeOfBy stopEval cs.tail with
       | some (body, tail) => parsePh body :: scanF n tail
       | none => pushChar c (scanF n cs)
     else pushChar c (scanF n cs)
 
 def scan (cs : List Char) : List Seg := scanF cs.length cs
 
-/-- the brace-free strings of a template and the curly brackets between them, in order -/
+/-- the strings between the curly brackets of a template -/
+def runsOf : List Char → List (List Char)
+  | [] => [[]]
+  | c :: cs =>
+    if isBrace c then [] :: runsOf cs else
+    match runsOf cs with
+    | h :: t => (c :: h) :: t
+    | [] => [[c]]
+
+/-- the strings of a template, scanned, and the curly brackets between them, in order -/
 def tokenizeAux : List Char → List Char → List Tok
   | acc, [] => [.run (scan acc.reverse)]
   | acc, c :: cs =>
@@ -73,10 +102,25 @@ def tokenizeAux : List Char → List Char → List Tok
 
 def tokenize (s : String) : List Tok := tokenizeAux [] s.toList
 
-/-- `Template(s).validate(event_type)` -/
-def validateStr (et : EType) (s : String) : Bool := validate et (tokenize s)
+/-- the nesting counter of `Template.validate` -/
+def braceBalanced : Nat → List Char → Bool
+  | d, [] => d == 0
+  | d, c :: cs =>
+    if c == '{' then braceBalanced (d + 1) cs
+    else if c == '}' then (if d == 0 then false else braceBalanced (d - 1) cs)
+    else braceBalanced d cs
 
-/-- `Template(s).evaluate(...)` -/
+/-- `Template(s).validate(event_type)`: balanced curly brackets, and every match of TEMPLATE_PATTERN
+in the whole template is a valid placeholder -/
+def validateStr (et : EType) (s : String) : Bool :=
+  braceBalanced 0 s.toList && (findAll stopValidate s.toList).all fun body => validSeg et (parsePh body)
+
+/-- `Template(s).evaluate(...)`: the template is cut into scopes and strings first -/
 def evaluateStr (env : Env) (s : String) : Except Err String := evaluate env (tokenize s)
+
+/-- a scanned piece written out again -/
+def segText : Seg → String
+  | .text t => t
+  | .ph f args => "[[" ++ (match f with | some n => n ++ ":" | none => "") ++ String.intercalate "," args ++ "]]"
 
 end Edxml.Tpl
